@@ -1597,6 +1597,16 @@ func serviceNodesTxn(tx ReadTxn, ws memdb.WatchSet, index string, q Query) (uint
 	if idx < svcIdx {
 		idx = svcIdx
 	}
+	if connect && len(results) == 0 {
+		// Empty connect result for a service that still has (non-connect)
+		// instances: its own index moved when the last connect-capable
+		// instance went away, the extinction index did not.
+		if _, res, err := catalogServiceMaxIndex(tx, serviceName, &q.EnterpriseMeta, q.PeerName); err == nil {
+			if own, ok := res.(*IndexEntry); ok && idx < own.Value {
+				idx = own.Value
+			}
+		}
+	}
 
 	// Connect results are proxies (or native instances) registered under their
 	// own service names, whose changes do not touch the index of the service
@@ -3075,6 +3085,15 @@ func checkServiceNodesTxn(tx ReadTxn, ws memdb.WatchSet, serviceName string, con
 		// to as there is only one chan to watch anyway).
 		svcIdx, _ := maxIndexAndWatchChForService(tx, serviceName, false, true, entMeta, peerName)
 		idx = lib.MaxUint64(idx, svcIdx)
+		// The result can be empty although the service still has instances (a
+		// connect query for a service whose last connect-capable instance just
+		// went away). Its own index moved with that change; the extinction
+		// index did not.
+		if _, res, err := catalogServiceMaxIndex(tx, serviceName, entMeta, peerName); err == nil {
+			if own, ok := res.(*IndexEntry); ok {
+				idx = lib.MaxUint64(idx, own.Value)
+			}
+		}
 	}
 
 	// Create a nil watchset to pass below, we'll only pass the real one if we
